@@ -2458,6 +2458,23 @@ pub fn run_world(cfg: &WorldCfg) {
     }
 }
 
+/// C11 audit of any state (used by the expert and map harnesses too).
+pub fn audit_state(state: &IncrState, after_stabilise: bool) {
+    let lines = state.verif_audit(after_stabilise);
+    if let Some(first) = lines.first() {
+        let cat: String = first.chars().map(|c| if c.is_ascii_digit() { '#' } else { c }).collect();
+        let mut cat2 = String::new();
+        for ch in cat.chars() {
+            if ch == '#' && cat2.ends_with('#') {
+                continue;
+            }
+            cat2.push(ch);
+        }
+        let cat: String = cat2.chars().take(70).collect();
+        violation(&format!("C11/{cat}"), lines.join(" | "));
+    }
+}
+
 pub fn panic_site(msg: &str) -> String {
     msg.rsplit(" @ ").next().unwrap_or("?").rsplit('/').next().unwrap_or("?").to_string()
 }
